@@ -133,6 +133,10 @@ def run(ctx):
             ctx.check(not refused, 'S2', 'a %s request that crosses our own exchange (state %s) is admitted by %s' % (ex, s, h.name),
                       key=('S2', 'crossing-refused', ex, s), site=ctx.site(h, h.node), detail={'outcomes': sorted(out)})
     common.deleted_observed(ctx, esc, 'S2')
+    # two exchanges that cross use two DH computations: the responder side of one must not touch `self.dh`, which holds the private
+    # value of our own outstanding request (shared with C01 O3)
+    from .c01 import dh_writers
+    dh_writers(ctx, 'S3')
 
     # ---------------------------------------------------------------- S3 collision answers
     creq = ctx.func('ikesa.IkeSa._process_create_child_sa_negotiation_req')
